@@ -63,7 +63,7 @@ def _self_assigned(fi):
     return out
 
 
-def per_instance_state(ctx, rule, modules, floor=1, shared_on_purpose=(), witness=()):
+def per_instance_state(ctx, rule, modules, floor=1, shared_on_purpose=(), witness=(), classes=None):
     """shared_on_purpose: {(class name, attr)} class-level tables that *are* meant to be shared, each listed by the
     caller with its reason."""
     ctx.rule(rule, 'state that methods mutate in place through self is created per instance (assigned in a '
@@ -83,13 +83,23 @@ def per_instance_state(ctx, rule, modules, floor=1, shared_on_purpose=(), witnes
                     mutated.setdefault(attr, (fi, node))
         if not mutated:
             continue
-        if ci.module.name not in modules:
+        if ci.module.name not in modules or (classes is not None and not any(c.name in classes for c in mro)):
             n_wit += len(mutated)
             continue
         per_instance = set()
+        starters = {'__init__', '__setstate__', '__new__'}
+        for c in mro:
+            for name in list(starters):
+                f0 = c.methods.get(name)
+                if f0 is not None:
+                    for x in walk_own(f0.node):
+                        if isinstance(x, ast.Call) and isinstance(x.func, ast.Attribute) and \
+                                isinstance(x.func.value, ast.Name) and x.func.value.id == 'self':
+                            starters.add(x.func.attr)
         for c in mro:
             for name, fi in c.methods.items():
-                per_instance |= _self_assigned(fi)
+                if name in starters:
+                    per_instance |= _self_assigned(fi)
         for attr, (fi, node) in sorted(mutated.items()):
             cls_val = None
             owner = None
@@ -183,6 +193,54 @@ def _derived_from(fi, expr, param):
     return False
 
 
+def _value_inputs(fi, expr, stop=()):
+    """Names (parameters included) the value of ``expr`` is computed from inside fi, following assignments to
+    locals, calls that receive a local as an argument (they may fill it in), and the loop iterables / tests that
+    enclose such statements.  Names in ``stop`` are not followed (and not reported)."""
+    parents = {}
+    for n in ast.walk(fi.node):
+        for ch in ast.iter_child_nodes(n):
+            parents[id(ch)] = n
+    seen = set()
+    todo = [x.id for x in ast.walk(expr) if isinstance(x, ast.Name)]
+    out = set()
+
+    def context_names(st):
+        names = set()
+        p = parents.get(id(st))
+        while p is not None and p is not fi.node:
+            if isinstance(p, (ast.For, ast.AsyncFor)):
+                names |= {x.id for x in ast.walk(p.iter) if isinstance(x, ast.Name)}
+            p = parents.get(id(p))
+        return names
+
+    while todo:
+        nm = todo.pop()
+        if nm in seen or nm in stop:
+            continue
+        seen.add(nm)
+        out.add(nm)
+        for st in walk_own(fi.node):
+            new = set()
+            if isinstance(st, (ast.Assign, ast.AugAssign, ast.AnnAssign)):
+                ts = st.targets if isinstance(st, ast.Assign) else [st.target]
+                if any(isinstance(x, ast.Name) and x.id == nm for t in ts for x in ast.walk(t)) and st.value is not None:
+                    new |= {x.id for x in ast.walk(st.value) if isinstance(x, ast.Name)}
+                    new |= context_names(st)
+            elif isinstance(st, (ast.For, ast.AsyncFor)):
+                if any(isinstance(x, ast.Name) and x.id == nm for x in ast.walk(st.target)):
+                    new |= {x.id for x in ast.walk(st.iter) if isinstance(x, ast.Name)}
+            elif isinstance(st, ast.Expr) and isinstance(st.value, ast.Call):
+                c = st.value
+                argn = {x.id for a in list(c.args) + [k.value for k in c.keywords] for x in ast.walk(a)
+                        if isinstance(x, ast.Name)}
+                recv = {x.id for x in ast.walk(c.func) if isinstance(x, ast.Name)}
+                if nm in argn or nm in recv:
+                    new |= argn | context_names(st)
+            todo.extend(new - seen)
+    return out
+
+
 def memo_key_covers_inputs(ctx, rule, modules, floor=1, witness=(), exempt=()):
     # exempt: '<function>:<table>' of tables that are keyed registries by design, each listed by the caller with a reason
     # witness: modules whose (known) memo tables only prove that the recogniser still recognises memo tables when
@@ -248,22 +306,21 @@ def memo_key_covers_inputs(ctx, rule, modules, floor=1, witness=(), exempt=()):
             keyx = key
             if isinstance(keyx, ast.Name) and fi.assigned_names().get(keyx.id) == 1 and keyx.id not in params:
                 defs = [v for (dn, t, v) in q.assigns(fi, keyx.id) if v is not None]
-                if defs:
-                    keyx = defs[0]
+                if defs and isinstance(defs[0], ast.Tuple):
+                    keyx = defs[0]      # key = (a, b): look at the parts; a scalar local key stands for itself
             elts = keyx.elts if isinstance(keyx, ast.Tuple) else [keyx]
             if all(isinstance(e, ast.Constant) for e in elts):
                 continue
             whole = [e.id for e in elts if isinstance(e, ast.Name) and e.id in params]
-            partial = [ast.unparse(e) for e in elts if not (isinstance(e, ast.Name) and e.id in params)
+            partial = [ast.unparse(e) for e in elts if not isinstance(e, ast.Name)
                        and not isinstance(e, ast.Constant)
                        and not any(isinstance(x, ast.Name) and x.id in whole for x in ast.walk(e))]
             tabname = tab.id if isinstance(tab, ast.Name) else None
             inputs = [p for p in params if p not in ('self', 'cls') and p != tabname]
-            # every input the function reads (outside the key itself) influences what is cached
-            key_nodes = {id(x) for e in [key, keyx] for x in ast.walk(e)}
-            read = {x.id for x in walk_own(fi.node) if isinstance(x, ast.Name) and isinstance(x.ctx, ast.Load)
-                    and id(x) not in key_nodes}
-            dep = [p for p in inputs if p in read or any(p == e for e in whole)]
+            # what the cached value is computed from: local dataflow (assignments, objects filled in by calls that
+            # take them as an argument, the loops / tests those statements sit in), cut at the names the key is made of
+            key_names = {x.id for e in elts for x in ast.walk(e) if isinstance(x, ast.Name)} if not partial else set()
+            dep = sorted(_value_inputs(fi, node.value, stop=key_names) & set(inputs) | set(whole))
             missing = [p for p in dep if p not in whole]
             if fi.module.name not in modules:
                 n_wit += 1
